@@ -679,7 +679,6 @@ func (q *TransferQueue) enqueueAndCollectRetriesFor(batch batch) (batch, error) 
 			q.errorc <- errors.New(tr.Tr.Get("[%v] The server returned an unknown OID.", o.Oid))
 
 			q.Skip(o.Size)
-			q.wait.Done()
 		} else {
 			// Pick t[0], since it will cover all transfers with the
 			// same OID.
